@@ -66,29 +66,75 @@ template <class F> static std::string guarded(F&& f) {
 static void begin(const char* what, long t, long n) { ev::Ev("begin").s("what", what).i("t", t).i("n", n).emit(); std::fflush(ev::out()); }
 
 // ---- gf ------------------------------------------------------------------------------------
-// gf_div is an internal helper of Shamir.cpp: a refactoring may drop it (division can be done on logs directly).
-// When it is gone the quotient is derived from the real gf_mul (the c with c*b = a), so the field check goes on.
-template <class T, class E, class L>
-static long long real_div(T a, T b, const E& exp, const L& log) {
-    if constexpr (requires { gf_div(a, b, exp, log); }) {
-        return gf_div(a, b, exp, log);
-    } else {
-        if (b == 0) throw std::invalid_argument("division by zero");
-        for (int c = 0; c < 256; ++c) if (gf_mul(static_cast<std::uint8_t>(c), b, exp, log) == a) return c;
-        return -1;
+// The field arithmetic split()/combine() use.  When Shamir.cpp still has its file-local helpers (build_exp_table, build_log_table,
+// gf_mul(a,b,exp,log)[, gf_div]) they are called directly.  A refactoring may rename, merge or remove them: then the multiplication
+// table is read off the public API -- a (2, 255) split whose coefficients are scripted through the interposed random_device gives
+// share[x].value[b] = secret[b] + coeff[b] * x, i.e. one product per (byte, index) -- and used only if it passes a sanity test.
+struct Field {
+    std::array<std::array<std::uint8_t, 256>, 256> mul{};
+    std::array<std::array<int, 256>, 256> quo{};     // quo[a][b] = the c with c*b = a (b != 0), -1 if none
+    bool ok = false;
+    std::string src = "none", div0 = "invalid_argument";
+    std::uint8_t add5a[256]{};
+    std::uint8_t m(std::uint8_t a, std::uint8_t b) const { return mul[a][b]; }
+    void finish() {
+        for (int a = 0; a < 256; ++a) for (int b = 0; b < 256; ++b) quo[a][b] = -1;
+        for (int c = 0; c < 256; ++c) for (int b = 1; b < 256; ++b) { int a = mul[c][b]; if (quo[a][b] < 0) quo[a][b] = c; }
     }
+};
+// (the empty pack `none` makes every call to a helper a dependent one: it is looked up only if its branch is instantiated)
+template <class... None> static Field make_field_t(None... none) {
+    Field f;
+    if constexpr (requires { gf_mul(std::uint8_t{}, std::uint8_t{}, build_exp_table(none...), build_log_table(build_exp_table(none...), none...), none...); }) {
+        const auto exp = build_exp_table(none...);
+        const auto log = build_log_table(exp, none...);
+        for (int a = 0; a < 256; ++a) for (int b = 0; b < 256; ++b) f.mul[a][b] = gf_mul(static_cast<std::uint8_t>(a), static_cast<std::uint8_t>(b), exp, log, none...);
+        for (int a = 0; a < 256; ++a) {
+            if constexpr (requires { gf_add(std::uint8_t{}, std::uint8_t{}, none...); }) f.add5a[a] = gf_add(static_cast<std::uint8_t>(a), std::uint8_t{0x5a}, none...);
+            else f.add5a[a] = static_cast<std::uint8_t>(a ^ 0x5a);
+        }
+        f.finish();
+        if constexpr (requires { gf_div(std::uint8_t{}, std::uint8_t{}, exp, log, none...); }) {
+            for (int a = 0; a < 256; ++a) for (int b = 1; b < 256; ++b) f.quo[a][b] = gf_div(static_cast<std::uint8_t>(a), static_cast<std::uint8_t>(b), exp, log, none...);
+            f.div0 = guarded([&] { (void)gf_div(std::uint8_t{7}, std::uint8_t{0}, exp, log, none...); });
+            if (f.div0 == "ok") f.div0 = "value";
+        }
+        f.ok = true; f.src = "internal";
+    } else {
+        // black box: 8 splits cover the 256 coefficient values (32 secret bytes each)
+        bool good = true;
+        for (int round = 0; round < 8 && good; ++round) {
+            std::array<std::uint8_t, 32> secret{};
+            std::vector<unsigned> draws;
+            for (int b = 0; b < 32; ++b) draws.push_back(0xA5A500u | static_cast<unsigned>(round * 32 + b));
+            vrng::seed(4242); vrng::script(draws);
+            std::vector<ShamirShare> sh;
+            if (guarded([&] { sh = Shamir::split(secret, 2, 255); }) != "ok" || sh.size() != 255) { good = false; break; }
+            for (const auto& s : sh) for (int b = 0; b < 32; ++b) f.mul[static_cast<size_t>(round * 32 + b)][s.index] = s.value[static_cast<size_t>(b)];
+        }
+        for (int a = 0; a < 256; ++a) f.add5a[a] = static_cast<std::uint8_t>(a ^ 0x5a);
+        // sanity: 1 is neutral, 0 annihilates, commutative, every non-zero row is a permutation
+        for (int a = 0; a < 256 && good; ++a) {
+            if (f.mul[a][1] != a || f.mul[0][a] != 0) good = false;
+            std::set<int> seen;
+            for (int b = 1; b < 256; ++b) { if (f.mul[a][b] != f.mul[b][a]) good = false; seen.insert(f.mul[a][b]); }
+            if (a && seen.size() != 255) good = false;
+        }
+        f.finish();
+        f.ok = good; f.src = good ? "public-api" : "unknown";
+    }
+    return f;
 }
+static const Field& field() { static const Field f = make_field_t(); return f; }
 static void do_gf() {
-    const auto exp = build_exp_table();
-    const auto log = build_log_table(exp);
+    const Field& f = field();
+    if (!f.ok) { ev::Ev("gfskip").s("why", "the field arithmetic could be reached neither through Shamir.cpp's helpers nor through the public API").emit(); return; }
     for (int a = 0; a < 256; ++a) {
         std::vector<long long> mul, div;
-        for (int b = 0; b < 256; ++b) mul.push_back(gf_mul(static_cast<std::uint8_t>(a), static_cast<std::uint8_t>(b), exp, log));
+        for (int b = 0; b < 256; ++b) mul.push_back(f.mul[static_cast<size_t>(a)][static_cast<size_t>(b)]);
         div.push_back(-1);
-        for (int b = 1; b < 256; ++b) div.push_back(real_div(static_cast<std::uint8_t>(a), static_cast<std::uint8_t>(b), exp, log));
-        long long out = -1;
-        std::string d0 = guarded([&] { out = real_div(static_cast<std::uint8_t>(a), static_cast<std::uint8_t>(0), exp, log); });
-        ev::Ev("gfrow").i("a", a).ints("mul", mul).ints("div", div).s("div0", d0 == "ok" ? "value" : d0).i("add", gf_add(static_cast<std::uint8_t>(a), 0x5a)).emit();
+        for (int b = 1; b < 256; ++b) div.push_back(f.quo[static_cast<size_t>(a)][static_cast<size_t>(b)]);
+        ev::Ev("gfrow").i("a", a).ints("mul", mul).ints("div", div).s("div0", f.div0).i("add", f.add5a[a]).s("src", f.src).emit();
     }
 }
 
@@ -211,38 +257,38 @@ static void do_bij(const ev::Cmd& c) {
 // Secrecy needs the t-1 random coefficients of each of the 32 per-byte polynomials to be independent uniform bytes.  However split()
 // consumes its randomness, the coefficients it used can be recovered from t shares (interpolation over the real field operations);
 // over `runs` splits with different randomness no two coefficient slots may agree every time and no slot may be constant.
-template <class E, class L>
-static std::vector<std::uint8_t> interpolate(const std::vector<std::uint8_t>& xs, const std::vector<std::uint8_t>& ys, const E& exp, const L& log) {
+static std::vector<std::uint8_t> interpolate(const std::vector<std::uint8_t>& xs, const std::vector<std::uint8_t>& ys, const Field& F) {
     const size_t t = xs.size();
+    auto add = [](std::uint8_t a, std::uint8_t b) { return static_cast<std::uint8_t>(a ^ b); };
     std::vector<std::uint8_t> master(t + 1, 0);          // M(x) = prod (x + x_j), coefficients low to high
     master[0] = 1;
     size_t deg = 0;
     for (size_t j = 0; j < t; ++j) {
         std::vector<std::uint8_t> next(t + 1, 0);
         for (size_t k = 0; k <= deg; ++k) {
-            next[k + 1] = gf_add(next[k + 1], master[k]);
-            next[k] = gf_add(next[k], gf_mul(master[k], xs[j], exp, log));
+            next[k + 1] = add(next[k + 1], master[k]);
+            next[k] = add(next[k], F.m(master[k], xs[j]));
         }
         master = next; ++deg;
     }
     std::vector<std::uint8_t> coeff(t, 0);
     for (size_t i = 0; i < t; ++i) {
-        // N_i(x) = M(x) / (x + x_i) by synthetic division (high to low)
-        std::vector<std::uint8_t> q(t, 0);
+        std::vector<std::uint8_t> q(t, 0);               // N_i(x) = M(x) / (x + x_i) by synthetic division (high to low)
         std::uint8_t carry = 0;
-        for (size_t k = t; k-- > 0;) { carry = gf_add(master[k + 1], gf_mul(carry, xs[i], exp, log)); q[k] = carry; }
+        for (size_t k = t; k-- > 0;) { carry = add(master[k + 1], F.m(carry, xs[i])); q[k] = carry; }
         std::uint8_t denom = 1;
-        for (size_t j = 0; j < t; ++j) if (j != i) denom = gf_mul(denom, gf_add(xs[i], xs[j]), exp, log);
-        const auto scale = static_cast<std::uint8_t>(real_div(ys[i], denom, exp, log));
-        for (size_t k = 0; k < t; ++k) coeff[k] = gf_add(coeff[k], gf_mul(q[k], scale, exp, log));
+        for (size_t j = 0; j < t; ++j) if (j != i) denom = F.m(denom, add(xs[i], xs[j]));
+        const int sc = F.quo[ys[i]][denom];
+        const auto scale = static_cast<std::uint8_t>(sc < 0 ? 0 : sc);
+        for (size_t k = 0; k < t; ++k) coeff[k] = add(coeff[k], F.m(q[k], scale));
     }
     return coeff;
 }
 static void do_indep(const ev::Cmd& c) {
     const long t = c.i("t"), n = c.i("n", t), runs = c.i("runs", 8);
     const auto secret = hex32(c.s("secret"));
-    const auto exp = build_exp_table();
-    const auto log = build_log_table(exp);
+    const Field& F = field();
+    if (!F.ok) { ev::Ev("indep").i("t", t).i("n", n).i("runs", runs).s("outcome", "skipped").i("slots", 0).i("dup", 0).i("constant", 0).i("wrong_secret", 0).i("dup_a", -1).i("dup_b", -1).emit(); return; }
     const size_t slots = static_cast<size_t>(32 * (t - 1));
     std::vector<std::vector<std::uint8_t>> seen(static_cast<size_t>(runs));     // per run: all coefficient slots (byte-major, degree 1..t-1)
     std::string outcome = "ok";
@@ -261,7 +307,7 @@ static void do_indep(const ev::Cmd& c) {
         for (int byte = 0; byte < 32; ++byte) {
             std::vector<std::uint8_t> ys;
             for (long i = 0; i < t; ++i) ys.push_back(sh[static_cast<size_t>(i)].value[static_cast<size_t>(byte)]);
-            const auto co = interpolate(xs, ys, exp, log);
+            const auto co = interpolate(xs, ys, F);
             if (co[0] != secret[static_cast<size_t>(byte)]) ++wrong_secret;
             for (long d = 1; d < t; ++d) row.push_back(co[static_cast<size_t>(d)]);
         }
